@@ -82,15 +82,19 @@ static void starterMain() {
     tulz::Thread t;
     theThread = &t;
     int arg = 4242;              // caller-owned lvalue argument, alive until after join()
+    if (t.isJoinable()) oracle_fail("C20: a Thread that was never started reports isJoinable()");
     switch (kind) {
     case 0: startWith<Canary<8>>(t, arg); break;
     case 1: startWith<Canary<256>>(t, arg); break;
     case 2: t.start(&plainFunction, arg); break;
     default: t.start(new Job()); break;
     }
+    if (!t.isJoinable()) oracle_fail("C20: after start() the Thread is not joinable");
     vs::point(TAG_AFTER_START);
     clobberStack();
     t.join();
+    if (!t.isFinished() || t.isRunning()) oracle_fail("C20: join() has returned but isFinished() is false / isRunning() is true");
+    if (t.isJoinable()) oracle_fail("C20: the Thread is still joinable after join() returned");
     vs::point(TAG_JOINED);
     theThread = nullptr;
 }
